@@ -611,8 +611,14 @@ def route_v_cases(rng, nq):
     def coqpt(t):
         return "(fp %d, fp %d, fp %d)" % t
     base = [E.G, E.add(E.G, E.G), E.smul(rng.randrange(1, R), E.G), E.ID, (0, E.P - 1)]
+    heavy_left = 2 if nq <= 40 else nq      # kernel evaluation of sqrt / decode / long scalar multiplication costs 6-8 s each
     for _ in range(nq):
         k = rng.randrange(15)
+        if k in (8, 12):
+            if heavy_left <= 0:
+                k = rng.choice([9, 10, 11, 14])
+            else:
+                heavy_left -= 1
         if k == 8:
             v = rng.choice([0, 1, 4, E.P - 1, rng.randrange(E.P), pow(rng.randrange(E.P), 2, E.P)])
             out.append(("rv sqrt %d" % v, "(match sqrt_precomp (fp %d) with Some y => [1; zval y] | None => [0] end)" % v))
@@ -640,7 +646,7 @@ def route_v_cases(rng, nq):
             continue
         if k == 13:
             a = pt3(rng.choice(base))
-            sc = rng.choice([0, 1, 2, R - 1, rng.randrange(R), rng.randrange(1 << 16)])
+            sc = rng.choice([0, 1, 2, R - 1, rng.randrange(R), rng.randrange(1 << 16)]) if nq > 40 else rng.choice([0, 1, 2, 3, rng.randrange(1 << 12)])
             out.append(("rv bwsmul %d %d %d %d" % ((sc,) + a),
                         "(bw_bytes (bw_smul (fr %d) %s))" % (sc, coqpt(a))))
             continue
